@@ -218,6 +218,10 @@ class Sym(Model):
     def m_isinstance(self, eng, clsname):
         return clsname in ("Basic", "Symbol", "Expr")
 
+    def m_binop(self, eng, op, other, reflected):
+        l, r = (other, self) if reflected else (self, other)
+        return T(type(op).__name__, l, r)
+
 
 PREFACTOR = T("numeric-prefactor")
 
@@ -874,3 +878,77 @@ def unit_extract_diagonal(nb, implicit, timeout_ms=10000):
                     eng.oblige(f"block{b}:energies-are-the-diagonal-of-the-block", z3.BoolVal(isinstance(v, T) and v.head == "diagonal-of" and v.args[0] is blocks[b]), detail=repr(v))
         eng.oblige("non-diagonal-block-only-warns", z3.BoolVal(len(warned) == 1) == z3.Not(diag_ok) if nexp else z3.BoolVal(not warned))
     return run_unit(f"block_diagonalization:_extract_diagonal[{nb} blocks{',implicit' if implicit else ''}]", harness, functions=[(MODULE, "_extract_diagonal")], timeout_ms=timeout_ms)
+
+
+# ------------------------------------------------------------------------------------------------
+def unit_sympy_prologue(given, timeout_ms=20000):
+    """_sympy_to_BlockSeries as a whole (given in {'user-order', 'none', 'foreign'}): the perturbative symbols are the ones the caller
+    supplied, IN THE ORDER SUPPLIED (the k-th order index counts powers of the k-th symbol; no re-sorting), or all free symbols if none were
+    supplied; a supplied symbol that does not occur raises ValueError; both series created carry these symbols as dimension names."""
+    fn = frontend.find(MODULE, "_sympy_to_BlockSeries")
+
+    def harness(eng):
+        sy = [Sym("k_y"), Sym("alpha"), Sym("k_x")]           # deliberately not alphabetical
+        free = PSet(list(sy))
+
+        class Op(T):
+            def m_getattr(s, e, name):
+                if name == "free_symbols":
+                    return free
+                if name == "expand":
+                    return Builtin("expand", lambda e2: expanded)
+                return T.m_getattr(s, e, name)
+        operator = Op("H(symbols)")
+        expanded = Op("H.expand()")
+        made = []
+        eng.globals.update({"BlockSeries": Builtin("BlockSeries", lambda e, *a, **kw: made.append(Rec("BlockSeries", a, kw)) or made[-1]),
+                            "_convert_if_zero": Builtin("_convert_if_zero", lambda e, v, atol=None: T("convert_if_zero", v)), "Operator": TypeObj("Operator")})
+        if given == "user-order":
+            arg = STup([sy[0], sy[2]], None, True)            # [k_y, k_x]
+        elif given == "none":
+            arg = STup([])
+        else:
+            arg = STup([sy[0], Sym("not_in_H")], None, True)
+        try:
+            res = eng.call(Closure(fn, Env(None, {}), "_sympy_to_BlockSeries"), [operator, arg], {"check_hermitian": False})
+        except PyRaise as pr:
+            eng.oblige("raises-only-ValueError-for-a-symbol-that-does-not-occur", z3.BoolVal(pr.exc.cls == "ValueError" and given == "foreign"), detail=pr.exc.cls)
+            return
+        eng.oblige("symbol-that-does-not-occur-is-rejected", z3.BoolVal(given != "foreign"))
+        ok = len(made) == 2 and res is made[1]
+        eng.oblige("creates-the-derivative-series-and-returns-the-operator-series", z3.BoolVal(ok))
+        if not ok:
+            return
+        want = [sy[0], sy[2]] if given == "user-order" else None
+        for rec, nm in ((made[0], "derivatives"), (made[1], "operator")):
+            dn = rec.kwargs.get("dimension_names")
+            items = eng.as_seq(dn).items if dn is not None else []
+            if want is not None:
+                eng.oblige(f"{nm}:dimension-names-are-the-supplied-symbols-in-the-supplied-order", z3.BoolVal(len(items) == 2 and items[0] is want[0] and items[1] is want[1]),
+                           detail=repr(items))
+                eng.oblige(f"{nm}:one-order-index-per-symbol", z3.BoolVal(rec.kwargs.get("n_infinite") == 2))
+            else:
+                eng.oblige(f"{nm}:all-free-symbols-are-perturbative", z3.BoolVal(len(items) == 3 and all(any(a is b for b in items) for a in sy)), detail=repr(items))
+        d0 = made[0].kwargs.get("data")
+        eng.oblige("derivatives-start-from-the-expanded-operator-at-order-zero", z3.BoolVal(isinstance(d0, dict) and len(d0) == 1 and list(d0.values())[0] is expanded
+                                                                                             and all(v == 0 for v in list(d0)[0])), detail=repr(d0)[:200])
+        if want is not None:
+            # the evaluator pairs the k-th order index with the k-th supplied symbol
+            ev = made[1].kwargs.get("eval")
+            series = SDerivSeries()
+            made[0].attrs  # noqa: B018  (derivative series object used below through the closure's environment)
+            ev.env.vars["operator_derivatives"] = series if "operator_derivatives" in ev.env.vars else None
+            if ev.env.vars.get("operator_derivatives") is None:
+                p = ev.env
+                while p is not None and "operator_derivatives" not in p.vars:
+                    p = p.parent
+                if p is None:
+                    raise Unsupported("op_eval does not read operator_derivatives")
+                p.vars["operator_derivatives"] = series
+            n0, n1 = z3.Ints("n_first n_second")
+            eng.assume(z3.And(n0 >= 0, n1 >= 0))
+            out = eng.call(ev, [SI(n0), SI(n1)], {})
+            mono = T("Mult", T("Mult", 1, T("Pow", want[0], SI(n0))), T("Pow", want[1], SI(n1)))
+            expect = T("convert_if_zero", T("Mult", T(".subs", T("D", SI(n0), SI(n1)), {want[0]: 0, want[1]: 0}), mono))
+            eng.oblige("k-th-order-index-counts-powers-of-the-k-th-supplied-symbol", term_eq(eng, out, expect), detail=f"got {out!r}"[:400])
+    return run_unit(f"block_diagonalization:_sympy_to_BlockSeries[symbols {given}]", harness, functions=[(MODULE, "_sympy_to_BlockSeries")], timeout_ms=timeout_ms)
